@@ -113,3 +113,62 @@ def run_defaults(case, tier):
                           backend="concrete-execution (real torch.optim.Optimizer.__init__)", case=case,
                           text=f"every group: beta3 = {want_b3}, start = {want_start}; group-level lr/momentum overrides kept"))
     return out
+
+
+def run_steps_two_groups(case, tier=None):
+    """The real `_instantiate_steps` on TWO parameter groups: every group gets its OWN zero step counter (distinct tensor objects), stored
+    under that group's first parameter — a shared counter would make a group without gradients advance with the others."""
+    import distributed_shampoo.distributed_shampoo as ds
+    from distributed_shampoo import shampoo_types as st
+    func = "DistributedShampoo._instantiate_steps"
+    out = []
+    ft = FakeTorch()
+    opt = object.__new__(ds.DistributedShampoo)
+    firsts = [object(), object()]
+
+    class Info:
+        def __init__(self, p):
+            self.param = p
+
+    class D:
+        def __init__(self, p):
+            self.local_block_info_list = (Info(p),)
+
+    opt.state = {firsts[0]: {}, firsts[1]: {}}
+    sls = [{st.DISTRIBUTOR: D(firsts[0])}, {st.DISTRIBUTOR: D(firsts[1])}]
+    opt._per_group_state_lists = sls
+    opt.param_groups = [{st.PARAMS: [firsts[0]]}, {st.PARAMS: [firsts[1]]}]
+    try:
+        with rebind([(ds, "torch", ft)]):
+            opt._instantiate_steps()
+    except BaseException as e:  # noqa
+        return [result(f"{func}/two-groups-supported[{case}]", func, "unknown", text=f"{type(e).__name__}: {e}"[:300], case=case)]
+    s0, s1 = sls[0].get(st.STEP), sls[1].get(st.STEP)
+    ok = isinstance(s0, SymTensor) and isinstance(s1, SymTensor) and s0 is not s1 and s0.cell is not s1.cell
+    stored = ok and opt.state[firsts[0]].get(st.STEP) is s0 and opt.state[firsts[1]].get(st.STEP) is s1
+    zero = ok and z3.is_true(z3.simplify(z3.And(s0.v == 0, s1.v == 0)))
+    out.append(result(f"{func}/one-step-counter-PER-GROUP-no-sharing[{case}]", func, "discharged" if (ok and stored and zero) else "violated", backend="heap-identity", case=case,
+                      replay=dict(kind="two_group_steps"),
+                      text="the step counters of two parameter groups are distinct zero tensors (no aliasing), each stored under its own group's first parameter",
+                      model=dict(distinct=bool(ok), stored_under_own_first_parameter=bool(stored), zero=bool(zero))))
+    return out
+
+
+def native_two_group_steps():
+    """Two parameter groups, the second without any gradient on some steps: its step counter must not advance."""
+    import torch
+    from distributed_shampoo.distributed_shampoo import DistributedShampoo
+    from distributed_shampoo import shampoo_types as st
+    torch.manual_seed(0)
+    a, b = torch.nn.Parameter(torch.randn(3, 2)), torch.nn.Parameter(torch.randn(4))
+    opt = DistributedShampoo([dict(params=[a]), dict(params=[b])], lr=0.01, precondition_frequency=1, start_preconditioning_step=1)
+    want = [0, 0]
+    for pres in ((True, True), (True, False), (False, True), (True, False), (False, False), (True, True)):
+        a.grad = torch.randn_like(a) if pres[0] else None
+        b.grad = torch.randn_like(b) if pres[1] else None
+        opt.step()
+        want = [want[0] + int(pres[0]), want[1] + int(pres[1])]
+        got = [int(sl[st.STEP]) for sl in opt._per_group_state_lists]
+        if got != want:
+            return f"after presence history ending in {pres}: per-group step counters {got}, expected {want} (a group without gradients must not advance)"
+    return None
